@@ -6,6 +6,23 @@
   the cursor), `compressDecision` computes the same decision on two buffers of the same size that
   agree below the cursor. The scan only reads label length octets, label octets and pointers of the
   stored names, all below the cursor.
+
+  Also: `scratch_setAa`, `scratch_setRcode` — the two header calls of the answering phase have the
+  same outcome on two writers that are `Same` (agree below the cursor, which lies above the header)
+  and leave them `Same`.
+
+  Not proved here (needed for the server's `ScratchIndep`, `QV.Proofs.ServerAnswerTwoRun`): the same
+  for `addRrOp` / `addRrsetOp`. The statement needs the invariant on one side
+  (`I s → Same s t → s.hv = t.hv → …`; without it a header octet may lie above the cursor and an
+  invalid anchor may point above it). Plan: thread `Same` through the writes of `add_rr` (every
+  primitive — `tryPush`, `write`, `pushPointer`, `ghostLabels`, the field updates — maps `Same`
+  states to `Same` states; the only read of octets is `compressDecision`, `compressDecision_congr`);
+  between the reservation of the two RDLENGTH octets and their write-back the two writers agree
+  below the cursor only outside that hole — for that situation the scan lemma is proved too:
+  `compressDecision_congr_gap` (agreement outside `[a, a+2)` under the hypotheses of
+  `nameAt_frame_gap`: names that start below `a` lie entirely below `a`, names that start at or
+  above `a + 2` have their literal labels above the hole and then hop to a recorded label start,
+  which is outside the hole). What remains is the threading.
 -/
 import QV.Proofs.Compress
 import QV.Proofs.Writer
@@ -148,6 +165,168 @@ theorem compressDecision_congr {mode : CMode} {a b : Option Prior} {n : WName}
     rw [hl, e0, e1]
     simp only []
     rw [scan_congr hag hsz n.labels 0 (by simp) (by omega) r0 r1 k0 k1]
+
+/-! ### the same with a hole: the two RDLENGTH octets reserved before the RDATA is written -/
+
+section gap
+variable {a : Nat}
+
+theorem extract_congr_range {x y : Bytes} {i j : Nat} (h : ∀ k, i ≤ k → k < j → y[k]? = x[k]?)
+    (hx : j ≤ x.size) (hy : j ≤ y.size) : y.extract i j = x.extract i j := by
+  apply Array.ext_getElem?
+  intro k
+  simp only [Array.getElem?_extract]
+  by_cases hk : k < min j x.size - i
+  · have hk' : k < min j y.size - i := by omega
+    rw [if_pos hk, if_pos hk']
+    exact h _ (by omega) (by omega)
+  · have hk' : ¬ k < min j y.size - i := by omega
+    rw [if_neg hk, if_neg hk']
+
+/-- names that start below the hole lie entirely below it -/
+theorem nameAt_below {p : Nat} {ls : List Label} (h : NameAt G oct cur p ls)
+    (hbelow : ∀ g, G g → g < a → ∃ ls', NameAt G oct a g ls') (hp : p < a) : NameAt G oct a p ls := by
+  obtain ⟨ls', hn⟩ := hbelow p (nameAt_start h).1 hp
+  have := nameAt_unique hn h
+  rw [← this]; exact hn
+
+theorem hop_agree_gap {q p : Nat} (h : Hop oct cur q p) (hq : a + 2 ≤ q) (hp : p < a ∨ a + 2 ≤ p)
+    (hag : ∀ i, i < cur → (i < a ∨ a + 2 ≤ i) → oct'[i]? = oct[i]?) : Hop oct' cur q p := by
+  cases h with
+  | here hq' hb hnp => exact .here hq' (by rw [hag _ hq' (Or.inr hq)]; exact hb) hnp
+  | jump hq' h1 h2 hp' hlt h3 hnp =>
+    exact .jump hq' (by rw [hag _ (by omega) (Or.inr hq)]; exact h1)
+      (by rw [hag _ hq' (Or.inr (by omega))]; exact h2) hp' hlt (by rw [hag _ (by omega) hp]; exact h3) hnp
+
+theorem skipLabels_congr_gap {p : Nat} {ls : List Label} (h : NameAt G oct cur p ls)
+    (hbelow : ∀ g, G g → g < a → ∃ ls', NameAt G oct a g ls') (hG : ∀ g, G g → g < a ∨ a + 2 ≤ g)
+    (hag : ∀ i, i < cur → (i < a ∨ a + 2 ≤ i) → oct'[i]? = oct[i]?) (hac : a ≤ cur) (k : Nat)
+    (hk : k ≤ ls.length) : skipLabels oct' k p = skipLabels oct k p := by
+  induction k generalizing p ls with
+  | zero => rfl
+  | succ k ih =>
+    by_cases hpa : p < a
+    · exact skipLabels_congr (nameAt_below h hbelow hpa) (fun i hi => hag i (by omega) (Or.inl hi)) _ hk
+    · cases h with
+      | root hg hp h0 => simp at hk
+      | @label p p' l ls hg h1 h63 hb hd hop rest =>
+        have hp2 : a + 2 ≤ p := by rcases hG p hg with h | h <;> omega
+        have hlt : p < cur := by have := hop_start_lt hop; omega
+        have hb' : oct'[p]? = some (UInt8.ofNat l.length) := by rw [hag p hlt (Or.inr hp2)]; exact hb
+        have hs := getElem?_some_lt hb
+        have hs' := getElem?_some_lt hb'
+        have hl : (UInt8.ofNat l.length).toNat = l.length := by rw [UInt8.toNat_ofNat']; omega
+        have hop' := hop_agree_gap hop (by omega) (hG p' (nameAt_start rest).1) hag
+        simp only [skipLabels, dif_pos hs, dif_pos hs']
+        rw [getElem_of_getElem? hb hs, getElem_of_getElem? hb' hs', hl,
+          show p + l.length + 1 = p + 1 + l.length by omega, hop_move hop, hop_move hop']
+        exact ih rest (by simpa using hk)
+
+theorem stepCtx_congr_gap {mode : CMode} {labels : List Label} {c : Nat} {pc : PriorCtx} {lab : Label}
+    (h : CtxOK G oct cur mode labels c pc) (hc : c < labels.length)
+    (hbelow : ∀ g, G g → g < a → ∃ ls', NameAt G oct a g ls') (hG : ∀ g, G g → g < a ∨ a + 2 ≤ g)
+    (hag : ∀ i, i < cur → (i < a ∨ a + 2 ≤ i) → oct'[i]? = oct[i]?) (hac : a ≤ cur)
+    (hsz : oct'.size = oct.size) :
+    stepCtx oct' mode c lab (some pc) = stepCtx oct mode c lab (some pc) := by
+  obtain ⟨ls, hn, hlen, _⟩ := h
+  by_cases hsc : c < pc.startColumn
+  · unfold stepCtx
+    dsimp only
+    rw [if_pos hsc, if_pos hsc]
+  · have hmax : max c pc.startColumn = c := by omega
+    rw [hmax] at hlen
+    by_cases hpa : pc.pointer < a
+    · -- the name lies below the hole
+      have hn' := nameAt_below hn hbelow hpa
+      cases hn' with
+      | root hg hp h0 => simp at hlen; omega
+      | @label p p' l0 ls0 hg h1 h63 hb hd hop rest =>
+        have hq := hop_start_lt hop
+        have hs2 : pc.pointer + 1 + l0.length < oct.size := hop_start_size hop
+        have hag' : ∀ i, i < a → oct'[i]? = oct[i]? := fun i hi => hag i (by omega) (Or.inl hi)
+        have hb' : oct'[pc.pointer]? = some (UInt8.ofNat l0.length) := by rw [hag' _ (by omega)]; exact hb
+        have hd' : (oct'.extract (pc.pointer + 1) (pc.pointer + 1 + l0.length)).toList = l0 := by
+          rw [extract_congr (a := oct) (b := oct') (fun k hk => hag' k (by omega)) (by omega) (by omega)]
+          exact hd
+        rw [stepCtx_eval hsc hb h63 hd (hop_move hop) hs2,
+          stepCtx_eval hsc hb' h63 hd' (hop_move (hop_agree hop hag')) (by omega)]
+    · cases hn with
+      | root hg hp h0 => simp at hlen; omega
+      | @label p p' l0 ls0 hg h1 h63 hb hd hop rest =>
+        have hp2 : a + 2 ≤ pc.pointer := by rcases hG _ hg with h | h <;> omega
+        have hq := hop_start_lt hop
+        have hs2 : pc.pointer + 1 + l0.length < oct.size := hop_start_size hop
+        have hb' : oct'[pc.pointer]? = some (UInt8.ofNat l0.length) := by
+          rw [hag _ (by omega) (Or.inr hp2)]; exact hb
+        have hd' : (oct'.extract (pc.pointer + 1) (pc.pointer + 1 + l0.length)).toList = l0 := by
+          rw [extract_congr_range (x := oct) (y := oct') (fun k hk1 hk2 => hag k (by omega) (Or.inr (by omega)))
+            (by omega) (by omega)]
+          exact hd
+        have hop' := hop_agree_gap hop (by omega) (hG p' (nameAt_start rest).1) hag
+        rw [stepCtx_eval hsc hb h63 hd (hop_move hop) hs2,
+          stepCtx_eval hsc hb' h63 hd' (hop_move hop') (by omega)]
+
+theorem scan_congr_gap {mode : CMode} {labels : List Label}
+    (hbelow : ∀ g, G g → g < a → ∃ ls', NameAt G oct a g ls') (hG : ∀ g, G g → g < a ∨ a + 2 ≤ g)
+    (hag : ∀ i, i < cur → (i < a ∨ a + 2 ≤ i) → oct'[i]? = oct[i]?) (hac : a ≤ cur)
+    (hsz : oct'.size = oct.size) (rest : List Label) (c : Nat) (hrest : rest = labels.drop c)
+    (hc : c ≤ labels.length) (c0 c1 : Option PriorCtx) (h0 : OptOK G oct cur mode labels c c0)
+    (h1 : OptOK G oct cur mode labels c c1) :
+    scan oct' mode c rest c0 c1 = scan oct mode c rest c0 c1 := by
+  induction rest generalizing c c0 c1 with
+  | nil => rfl
+  | cons lab rest ih =>
+    have hlt : c < labels.length := by
+      have := congrArg List.length hrest
+      simp at this; omega
+    have hlab : labels[c]? = some lab := by
+      have : (labels.drop c)[0]? = some lab := by rw [← hrest]; rfl
+      simpa using this
+    obtain ⟨d0, d1⟩ := dedup_ok h0 h1
+    obtain ⟨o0, e0, k0⟩ := stepCtx_opt d0 hlt hlab
+    obtain ⟨o1, e1, k1⟩ := stepCtx_opt d1 hlt hlab
+    have step : ∀ o, OptOK G oct cur mode labels c o → stepCtx oct' mode c lab o = stepCtx oct mode c lab o := by
+      intro o ho
+      cases o with
+      | none => rfl
+      | some pc => exact stepCtx_congr_gap (ho pc rfl) hlt hbelow hG hag hac hsz
+    have e0' := step _ d0
+    have e1' := step _ d1
+    rw [e0] at e0'
+    rw [e1] at e1'
+    simp only [scan, e0, e1, e0', e1']
+    exact ih (c + 1) (by rw [← List.drop_drop, ← hrest]; rfl) hlt o0 o1 k0 k1
+
+/-- **the compression scan does not read the reserved RDLENGTH octets either**: agreement below
+    the cursor outside a two-octet hole at `a` that no recorded name overlaps is enough -/
+theorem compressDecision_congr_gap {mode : CMode} {x y : Option Prior} {n : WName}
+    (hx : ∀ p, x = some p → PriorOK G oct cur p) (hy : ∀ p, y = some p → PriorOK G oct cur p)
+    (hbelow : ∀ g, G g → g < a → ∃ ls', NameAt G oct a g ls') (hG : ∀ g, G g → g < a ∨ a + 2 ≤ g)
+    (hag : ∀ i, i < cur → (i < a ∨ a + 2 ≤ i) → oct'[i]? = oct[i]?) (hac : a ≤ cur)
+    (hsz : oct'.size = oct.size) :
+    compressDecision oct' mode x y n = compressDecision oct mode x y n := by
+  have hl1 : 1 ≤ n.len := by show 1 ≤ n.labels.length + 1; omega
+  have bp : ∀ o : Option Prior, (∀ p, o = some p → PriorOK G oct cur p) →
+      buildPriorCtxOpt oct' n.len o = buildPriorCtxOpt oct n.len o := by
+    intro o ho
+    cases o with
+    | none => rfl
+    | some p =>
+      obtain ⟨pls, hn, hlen⟩ := ho p rfl
+      simp only [buildPriorCtxOpt, buildPriorCtx]
+      rw [skipLabels_congr_gap hn hbelow hG hag hac _ (by omega)]
+  unfold compressDecision
+  split
+  · rfl
+  · rw [bp x hx, bp y hy]
+    obtain ⟨r0, e0, k0⟩ := buildPriorCtxOpt_ok (mode := mode) (labels := n.labels) hx
+    obtain ⟨r1, e1, k1⟩ := buildPriorCtxOpt_ok (mode := mode) (labels := n.labels) hy
+    have hl : n.len = n.labels.length + 1 := rfl
+    rw [hl, e0, e1]
+    simp only []
+    rw [scan_congr_gap hbelow hG hag hac hsz n.labels 0 (by simp) (by omega) r0 r1 k0 k1]
+
+end gap
 
 /-! ### the header calls do not depend on scratch space -/
 
